@@ -269,6 +269,17 @@ def r1(ctx):
     ctx.floor(15)
 
 
+def _uncopy(t):
+    """`list(x)`, `[*x]`, `x.copy()`, `x[:]` hold what x holds (the node gets its own list, the group's list is re-bound at reset anyway)"""
+    if not isinstance(t, str):
+        return t
+    for pat in (r"list\((.+)\)", r"\[\*(.+)\]", r"(.+)\.copy\(\)", r"(.+)\[:\]"):
+        m = re.fullmatch(pat, t)
+        if m:
+            return m.group(1)
+    return t
+
+
 @rule("C05.R3", "line lists and line counts are updated together; lists handed out are re-bound, never mutated afterwards")
 def r3(ctx):
     repo = ctx.repo
@@ -349,7 +360,7 @@ def r3(ctx):
     from ..spec import call_args as _call_args
 
     f = fp.find_method("insert_code_node")
-    g = f.params[1]
+    g = next((p_ for p_ in f.params if any(isinstance(x, ast.Attribute) and x.attr == "line_count" and u(x.value) == p_ for x in ast.walk(f.node))), f.params[1])
     n_cn = 0
     for p in _tab(f, unroll=1):
         for e in p.effects:
@@ -372,18 +383,20 @@ def r3(ctx):
             pos, kw = ca
             num = pos[2] if len(pos) > 2 else kw.get("num_lines")
             lines = kw.get("lines", pos[4] if len(pos) > 4 else None)
+            lines = _uncopy(lines)
             ctx.check(num == f"{g}.line_count" and lines == f"{g}.lines", "file_parser:FileParser.insert_code_node", f"a code node must take its count and its line list from the same group ({g}.line_count / {g}.lines): num_lines={num}, lines={lines}", f.loc())
     if not n_cn:
         raise AnalysisError("insert_code_node: no CodeNode(...) construction found in the decision table")
     f = fp.find_method("insert_directive_node")
-    g = f.params[1]
+    # the group parameter is the one whose line count is read (whatever its position)
+    g = next((p_ for p_ in f.params if any(isinstance(x, ast.Attribute) and x.attr == "line_count" and u(x.value) == p_ for x in ast.walk(f.node))), f.params[1])
     n_dn = 0
     for p in _tab(f, unroll=1):
         st_ = {_vt(e[1]).rsplit(".", 1)[-1]: _vt(e[2]) for e in p.effects if e[0] == "store" and "." in _vt(e[1])}
         if "num_lines" not in st_ and "lines" not in st_:
             continue
         n_dn += 1
-        ctx.check(st_.get("num_lines") == f"{g}.line_count" and st_.get("lines") == f"{g}.lines", "file_parser:FileParser.insert_directive_node:count-and-lines", f"a directive node must take its count and its line list from the same group ({g}.line_count / {g}.lines): num_lines={st_.get('num_lines')}, lines={st_.get('lines')}", f.loc())
+        ctx.check(st_.get("num_lines") == f"{g}.line_count" and _uncopy(st_.get("lines")) == f"{g}.lines", "file_parser:FileParser.insert_directive_node:count-and-lines", f"a directive node must take its count and its line list from the same group ({g}.line_count / {g}.lines): num_lines={st_.get('num_lines')}, lines={st_.get('lines')}", f.loc())
     if not n_dn:
         raise AnalysisError("insert_directive_node: no path sets num_lines / lines")
     ctx.floor(9)
@@ -422,14 +435,38 @@ def r4(ctx):
         else:
             ok = len(adds) == 1 and adds[0][0] == "groups['code'].add_line" and adds[0][1][:2] == ["PI", "LL.local_sloc"] and ("lines", "LL.lines") in adds[0][1] and not hd
         ctx.check(ok, key, f"a logical line must be added (extent, sloc, physical line numbers) to exactly one group: {p.describe()[:250]}", f.loc())
+    # table specification of handle_directive: pending code (if any) becomes a node and joins the file group BEFORE the
+    # directive node is inserted; the directive group joins the file group afterwards
+    from ..spec import atoms as _at4, tab as _tab4, vt as _vt4
+
     hd = repo.func("file_parser", "FileParser.handle_directive")
-    t = u(hd.node)
-    ok = "if not groups['code'].empty():" in t and "FileParser.insert_code_node(out_tree, groups['code'])" in t and "groups['file'].merge(groups['code'])" in t and "groups['file'].merge(groups['directive'])" in t
-    order = ok and t.index("insert_code_node") < t.index("insert_directive_node")
-    ctx.soft(bool(order), "file_parser:FileParser.handle_directive:flush-code-first", "pending code must become a node before the directive node is inserted; both groups are merged into the file group", hd.loc())
-    t = u(f.node)
-    ok = "if not groups['code'].empty():" in t and "self.insert_code_node(out_tree, groups['code'])" in t
-    ctx.soft(ok, "file_parser:FileParser.parse_file:flush-at-eof", "pending code must become a node at end of file", f.loc())
+    n_hd = 0
+    for p in _tab4(hd, unroll=1):
+        at = _at4(p)
+        empty = next((v for k, v in at.items() if re.fullmatch(r"groups\['code'\]\.empty\(\)", k)), None)
+        if empty is None:
+            empty = next((not v for k, v in at.items() if k in ("groups['code'].line_count", "groups['code'].lines")), None)
+        if empty is None:
+            raise AnalysisError(f"handle_directive: emptiness of the pending code group is not examined: {p.describe()[:160]}")
+        n_hd += 1
+        seq = [(str(e[1]).rsplit(".", 1)[-1], re.sub(r"@\d+", "", _vt4(e[3] if str(e[1]).endswith("_node") else e[2])) if len(e) > 2 else "") for e in p.effects if e[0] == "call"]
+        want = ([("insert_code_node", "groups['code']"), ("merge", "groups['code']")] if not empty else []) + [("insert_directive_node", "groups['directive']"), ("merge", "groups['directive']")]
+        ctx.check(seq == want, f"file_parser:FileParser.handle_directive:flush-code-first:pending={not empty}", f"with{'out' if empty else ''} pending code the steps must be {want}: got {seq}", hd.loc())
+    if n_hd < 2:
+        raise AnalysisError("handle_directive: fewer than two cases understood")
+    # end of file: the path of parse_file that leaves the line loop flushes pending code the same way
+    n_eof = 0
+    for p in _tab4(f, unroll=1):
+        at = _at4(p)
+        emp = [(k, v) for k, v in at.items() if re.search(r"\['code'\]\.empty\(\)", k)]
+        if not emp or p.result[0] == "raise":
+            continue
+        n_eof += 1
+        ins = [e for e in p.effects if e[0] == "call" and str(e[1]).endswith("insert_code_node")]
+        pending = not emp[-1][1]
+        ctx.check(len(ins) == (1 if pending else 0), "file_parser:FileParser.parse_file:flush-at-eof", f"at end of file pending code (pending: {pending}) must become a node exactly once: {len(ins)} insertion(s)", f.loc())
+    if not n_eof:
+        raise AnalysisError("parse_file: no path examines the pending code group at end of file")
     gs = [c for c in f.calls() if callee(c) == "get_file_source"]
     ok = len(gs) == 1 and [u(a) for a in gs[0].args] == ["filename", "language"]
     ctx.soft(ok, "file_parser:FileParser.parse_file:source-by-language", "the line source must be chosen for the file and the (inherited) language", f.loc())
